@@ -54,6 +54,14 @@ def build(program: dict) -> dict:
                     nd["ctor_fail"] = "E"
                 else:
                     nd[end["phase"]].insert(2 if end["pos"] == "after" else 1, ("fail", "E"))
+    if end["kind"] == "conflict":
+        # a component re-publishes a (type, name) that is already taken, with a teardown callback: start-up fails, and the
+        # callback of the failed call must never run
+        ps = paths(spec)
+        ps[0][1]["prepare"].insert(1, ("add", "RA", "dup", "first", True))
+        for p, nd in ps:
+            if p == end["path"]:
+                nd["start"].insert(1, ("add", "RA", "dup", "second", True))
     if end["kind"] == "svc-crash":
         for p, nd in paths(spec):
             if p == end["path"]:
@@ -125,6 +133,7 @@ class C15(E1Check):
                         progs.append({"tree": tree, "cli": cli, "svc": svc, "end": {"kind": "signal", "sig": sig}})
                     for p in ps[-1:]:
                         progs.append({"tree": tree, "cli": cli, "svc": svc, "end": {"kind": "svc-crash", "path": p}})
+                        progs.append({"tree": tree, "cli": cli, "svc": svc, "end": {"kind": "conflict", "path": p}})
         return progs
 
     def bound(self, tier: str, program: Any) -> int:
@@ -252,7 +261,7 @@ class C15(E1Check):
             exp = expected_for_run_value(RUN_VALUES[end["value"]])
         elif k == "run-raise":
             exp = None
-        elif k == "fail":
+        elif k in ("fail", "conflict"):
             exp = ("exit", 1)
         elif k == "timeout":
             ti = next((i for i, ev in enumerate(tr) if ev[:2] == ("env", "timer")), None)
@@ -297,8 +306,18 @@ class C15(E1Check):
                     return [x for y in e.exceptions for x in leaves(y)]
                 return [e]
 
-            if out[0] != "raise" or not any(isinstance(x, CompFail) and "svc" in str(x) for x in leaves(out[1])):
+            import asyncio as _asyncio
+
+            import trio as _trio
+
+            cancelled = (_asyncio.CancelledError, _trio.Cancelled)
+            lv = leaves(out[1]) if out[0] == "raise" else []
+            mine = [x for x in lv if isinstance(x, CompFail) and "svc" in str(x)]
+            foreign = [x for x in lv if x not in mine and not isinstance(x, cancelled)]
+            if out[0] != "raise" or not mine:
                 fail("outcome", f"a service task crashed after start-up but run_application ended with {out!r}")
+            elif foreign:
+                fail("outcome", f"a service task crashed after start-up; run_application raised {out[1]!r}, which carries {foreign!r} besides the original exception")
         elif exp is not None and out != exp:
             fail("outcome", f"ending {end}: expected {exp}, run_application ended with {out!r}")
 
